@@ -197,3 +197,50 @@ def run_deadstore(repo, res, modules):
                                 f'{f.qualname}: `{name}` is assigned at `{norm_stmt_text(st)}` but never read: the value does not reach '
                                 f'the result (misspelt target? the intended variable keeps its previous value)', {}))
     return n
+
+
+def run_class_mutable(repo, res, modules):
+    """A class-level attribute bound to a mutable literal that methods modify through `self`
+    is shared by all instances: what one object caches/records leaks into every other."""
+    n = 0
+    for c in repo.classes.values():
+        if c.module.name not in modules:
+            continue
+        for name, val in c.class_attrs.items():
+            mutable = isinstance(val, (ast.Dict, ast.List, ast.Set)) or \
+                (isinstance(val, ast.Call) and unparse(val.func, 0).split('.')[-1] in ('dict', 'list', 'set', 'defaultdict', 'OrderedDict'))
+            if not mutable or name.startswith('__') or name in ('_params', '__slots__'):
+                continue
+            # rebound per instance in __init__?
+            init = c.lookup('__init__')
+            rebound = False
+            if init is not None:
+                for node in ast.walk(init.node):
+                    if isinstance(node, ast.Assign) and any(isinstance(t, ast.Attribute) and isinstance(t.value, ast.Name)
+                                                            and t.value.id == 'self' and t.attr == name for t in node.targets):
+                        rebound = True
+            mutated = None
+            for f in c.all_functions():
+                for node in ast.walk(f.node):
+                    tgt = None
+                    if isinstance(node, (ast.Assign, ast.AugAssign)):
+                        for t in (node.targets if isinstance(node, ast.Assign) else [node.target]):
+                            if isinstance(t, ast.Subscript) and isinstance(t.value, ast.Attribute) and isinstance(t.value.value, ast.Name) \
+                                    and t.value.value.id == 'self' and t.value.attr == name:
+                                mutated = (f, node)
+                    if isinstance(node, ast.Call) and isinstance(node.func, ast.Attribute) and isinstance(node.func.value, ast.Attribute) \
+                            and isinstance(node.func.value.value, ast.Name) and node.func.value.value.id == 'self' \
+                            and node.func.value.attr == name and node.func.attr in ('append', 'extend', 'update', 'add', 'setdefault', 'pop', 'clear'):
+                        mutated = (f, node)
+            n += 1
+            ok = rebound or mutated is None
+            res.oblige('CLASS-MUTABLE', f'{c.name}.{name}: mutable class attribute is not modified through instances', ok, nontrivial=True,
+                       sample={'class': c.fullname, 'attr': name})
+            if not ok:
+                f, node = mutated
+                res.add(Finding('CLASS-MUTABLE', c.fullname, f'class attribute {name}', f'{c.module.relpath}:{val.lineno}',
+                                f'{c.name}.{name} is a mutable object created once in the class body and modified through `self` in '
+                                f'{f.qualname} (`{norm_stmt_text(enclosing_stmt(node))}`) without being rebound in __init__: all '
+                                f'instances share it, so results depend on what other objects did before', {}))
+    res.inst('CLASS-MUTABLE', 0)
+    return n
